@@ -247,11 +247,29 @@ def run_and_validate(exe, case_files, tag, jobs=12, timeout_ms=30000, module="Tr
     return res
 
 
+# rules that judge what a run RETURNED (or that it did not return): they do not depend on the
+# hook stream having been followed
+RESULT_RULE_RE = re.compile(r"^(C04_(Panic|Timeout|Crash)|C10_Deadlock|C01_(V_\w+|DupInSolution|NotASolvable)|"
+                            r"C02_(UnsatButSatisfiable|SolutionButUnsatisfiable|VerdictDiffers)|C12_\w+|C17_\w+|C06_\w+)$")
+
+
 def first_fail_per_run(fails):
-    """Only the first rule failure of a run is reported (later ones may be consequences)."""
-    best = {}
-    for f in sorted(fails, key=lambda x: (x["id"], x["k"], x["line"])):
-        best.setdefault((f["id"], f["k"]), f)
+    """Only the first rule failure of a run is reported (later ones may be consequences).
+    A tool-level failure (T_*: the hook stream could not be followed, e.g. clause ids that do
+    not restart) must not hide what the run returned: if the same run also breaks a rule
+    about its RESULT, that one is reported; step rules after a T failure are not trusted."""
+    best, tool = {}, set()
+    ordered = sorted(fails, key=lambda x: (x["id"], x["k"], x["line"]))
+    for f in ordered:
+        if f["rule"].startswith("T_"):
+            tool.add((f["id"], f["k"]))
+    for f in ordered:
+        key = (f["id"], f["k"])
+        if key in tool and not f["rule"].startswith("T_") and not RESULT_RULE_RE.match(f["rule"]):
+            continue
+        cur = best.get(key)
+        if cur is None or (cur["rule"].startswith("T_") and not f["rule"].startswith("T_")):
+            best[key] = f
     return list(best.values())
 
 
